@@ -61,7 +61,18 @@ def c_panic(ctx):
                     if e.bb == bb and e.kind in ("call", "assert"):
                         if (e.kind == "assert") == kind.startswith("assert") and discharge(ctx, body, p, e, kind) is None:
                             fired += 1
-    return fired >= 3
+    # ... and the common safe idioms must be discharged (no false alarm on guarded code)
+    body = ctx.body("guarded_idioms_good")
+    undis = 0
+    for (bb, kind) in sites_of(body):
+        if kind.startswith("assert:Overflow"):
+            continue
+        for p in ctx.paths("guarded_idioms_good"):
+            for e in p.events:
+                if e.bb == bb and e.kind in ("call", "assert") and (e.kind == "assert") == kind.startswith("assert"):
+                    if discharge(ctx, body, p, e, kind) is None:
+                        undis += 1
+    return fired >= 3 and undis == 0
 
 
 def c_term(ctx):
